@@ -43,7 +43,9 @@ MANIFEST = {
             'pointer write is modelled as Oob when a frame decodes to more bytes than remain in `out`: the real code (and asdf, '
             'which checks the length only afterwards) has no such check, so a corrupt file can overrun the buffer; this is outside '
             'the property statement and reported as a remark, the round-trip theorem shows it cannot happen on compress output '
-            'when `out` has the payload size.  Theorems are closed under the global context.',
+            'when `out` has the payload size.  A compression block smaller than one item makes compress raise ValueError (range '
+            'step 0) before yielding anything (compress_rejects_small_block); the round trip is stated for item size <= block '
+            'size.  Theorems are closed under the global context.',
 }
 SENT = 0xA5
 GUARD = 1 << 16
@@ -108,9 +110,10 @@ def gen_payload_specs(ctx):
         itemsz = rng.choice([1, 1, 2, 3, 4, 5, 8, 16])
         nitems = rng.choice([0, 1, 2, 3, rng.randint(4, 40), rng.randint(20, 400 // itemsz + 21)])
         nbytes = nitems * itemsz
-        blocks = [itemsz, 2 * itemsz, itemsz + 1, 3 * itemsz + 2, 16, 64, 100, 256, 1 << 22]
-        blocks = [b for b in blocks if b >= itemsz and nbytes // (b // itemsz * itemsz) <= 12]
-        blocksz = rng.choice(blocks or [1 << 22])
+        # aim at 1..12 frames per stream; block sizes that are / are not multiples of the item size; the default
+        target = rng.choice([1, 2, 3, 4, 6, 9, 12])
+        per = max(1, -(-nitems // target))
+        blocksz = rng.choice([per * itemsz, per * itemsz + rng.randrange(itemsz), per * itemsz, 1 << 22 if target == 1 else per * itemsz])
         codec = 'identity' if k % 2 else 'zlib'
         if rng.random() < 0.5:
             data = bytes(rng.randrange(256) for _ in range(nbytes))
@@ -305,6 +308,85 @@ def impl_decompress(payload):
     return results
 
 
+def impl_end_to_end(payload):
+    """blsc ASDF files written through the real compress (write-side shim: asdf >= 3 hands compress an ndarray, the repo
+    wants a memoryview) and read back through asdf's real file layer with several io_block_size values, i.e. the real
+    chunkings of `fd.read_blocks`."""
+    import os
+    import shutil
+    import tempfile
+    import warnings
+
+    import asdf
+    import numpy as np
+    from abacusnbody.data.asdf import AbacusExtension, BloscCompressor
+    from vlib.implrun import classify
+    if not any(isinstance(getattr(e, 'delegate', e), AbacusExtension) for e in asdf.get_config().extensions):
+        asdf.get_config().add_extension(AbacusExtension())
+    out = []
+    for spec in payload['specs']:
+        os.environ['VERIF_BLOSC_CODEC'] = spec['codec']
+        tmp = tempfile.mkdtemp(prefix='c14_')
+        try:
+            arr = np.frombuffer(bytes.fromhex(spec['data']), dtype=spec['dtype']).reshape(spec['shape']).copy()
+            path = os.path.join(tmp, 'a.asdf')
+            orig = BloscCompressor.compress
+            BloscCompressor.compress = lambda self, data, _o=orig, **kw: _o(self, memoryview(data), **kw)
+            try:
+                asdf.AsdfFile({'data': {'x': arr}}).write_to(path, all_array_compression='blsc',
+                                                             compression_kwargs={'compression_block_size': spec['blocksz']})
+            finally:
+                BloscCompressor.compress = orig
+            per = []
+            for bs in spec['io_block_sizes']:
+                seen = []
+                od = BloscCompressor.decompress
+
+                def spy(self, blocks, out, _od=od, _seen=seen, **kw):
+                    def gen():
+                        for b in blocks:
+                            _seen.append(len(b))
+                            yield b
+                    return _od(self, gen(), out, **kw)
+
+                BloscCompressor.decompress = spy
+                try:
+                    with warnings.catch_warnings():
+                        warnings.simplefilter('ignore')
+                        with asdf.config_context() as cfg:
+                            cfg.io_block_size = bs
+                            with asdf.open(path, memmap=False, lazy_load=False) as f:
+                                got = np.array(f['data']['x'])
+                    per.append({'class': 'ok', 'equal': bool(got.dtype == arr.dtype and got.shape == arr.shape
+                                                             and got.tobytes() == arr.tobytes()),
+                                'nchunks': len(seen), 'maxchunk': max(seen or [0])})
+                except Exception as e:  # noqa: BLE001
+                    per.append({'class': classify(e), 'equal': False, 'detail': repr(e)[:200]})
+                finally:
+                    BloscCompressor.decompress = od
+            out.append(per)
+        finally:
+            shutil.rmtree(tmp, ignore_errors=True)
+    return out
+
+
+def gen_e2e_specs(ctx):
+    rng = ctx.rng
+    specs = []
+    for k in range(3 if ctx.quick() else 12):
+        dt, w = rng.choice([('u1', 1), ('<i2', 2), ('<f4', 4), ('<i8', 8), ('<c16', 16)])
+        rows = rng.choice([0, 1, 5, 40, 200])
+        shape = [rows] + rng.choice([[], [3], [2, 2]])
+        n = w
+        for d in shape:
+            n *= d
+        specs.append({'codec': 'zlib' if k % 2 else 'identity', 'dtype': dt, 'shape': shape,
+                      'data': bytes((i * 7 + k) % 256 if rng.random() < 0.7 else rng.randrange(256) for i in range(n)).hex(),
+                      'blocksz': rng.choice([w, 4 * w, 64, 256, 1 << 22]),
+                      'io_block_sizes': [1, 3, 7, 64, 4096, -1] if not ctx.quick() else [1, 5, -1]})
+    return specs
+
+
 # ------------------------------------------------------------------------------ comparison
 def final_class(first, trace):
     st = trace[-1] if trace else (first[0] if first else [0, 0, -1, 0, [], 0])
@@ -460,6 +542,22 @@ def explore(ctx):
             vals = [coqio.outcome_val(g, ok_val) for g in per]
             terms.append(coqio.tup([case_term(case), coqio.VL(vals)]))
             owners.append(i)
+    # --- end to end through asdf's file layer
+    e2e_specs = gen_e2e_specs(ctx)
+    e2e = ctx.run_impl('harness.c14', 'impl_end_to_end', {'specs': e2e_specs})
+    dist['asdf_open_reads'] = 0
+    dist['asdf_open_chunks'] = 0
+    for spec, per in zip(e2e_specs, e2e):
+        for bs, r in zip(spec['io_block_sizes'], per):
+            evaluations += 1
+            dist['asdf_open_reads'] += 1
+            dist['asdf_open_chunks'] += r.get('nchunks', 0)
+            if not r['equal']:
+                counterexamples.append({
+                    'key': 'asdf-open:blsc', 'what': f'asdf.open of a blsc file with io_block_size={bs} does not return the array written',
+                    'input': dict(spec, op='end_to_end', io_block_sizes=[bs]), 'impl_result': r, 'expected': 'the array written',
+                    'predicate': 'reading a blsc-compressed ASDF array returns the bytes written, for every io block size',
+                    'size': len(spec['data']) // 2})
     counterexamples.sort(key=lambda v: (v['input'].get('kind') not in (None, 'roundtrip', 'roomy'), v['size']))
     seen, keep = set(), []
     for v in counterexamples:
@@ -503,12 +601,13 @@ def explore(ctx):
 
     return {
         'evaluations': evaluations, 'distinct_nontrivial': len(nontrivial),
-        'rule': 'random payloads (0..~420 bytes, item sizes 1..16, compression block sizes from one item to 1<<22, two stub '
-                'codecs) compressed by the real compress; per stream the valid one plus roomy/truncated/zero-header/long-/short-'
+        'rule': 'random payloads (0..~420 bytes, item sizes 1..16, compression block sizes from one item to 1<<22 giving 0..12 '
+                'frames, two stub codecs) compressed by the real compress; per stream the valid one plus roomy/truncated/zero-header/long-/short-'
                 'header/corrupt/overrun/garbage variants; per stream ~15-20 chunkings (single, all-1-byte, fixed sizes, every cut '
                 'offset 0..4 of one length prefix, prefix byte-by-byte, frame-aligned, a cut in every prefix, before every last frame '
-                'byte, random cuts, empty chunks interleaved); non-trivial = at least one complete frame and at least two chunks, '
-                'distinct by (stream, cap, cuts)',
+                'byte, random cuts, empty chunks interleaved); plus blsc ASDF files written through the real compress and '
+                'read back by asdf.open under several io_block_size values (the real file-layer chunkings); non-trivial = at least one '
+                'complete frame and at least two chunks, distinct by (stream, cap, cuts)',
         'samples': [{'input': pub(cases[i], cases[i]['chunkings'][-1]), 'impl': impl[i][-1]['class']}
                     for i in sorted({0, len(cases) // 2, len(cases) - 1}) if cases],
         'traces_validated_against_impl': validated, 'exhaustive': False, 'input_distribution': dist,
@@ -534,6 +633,10 @@ def search(ctx, broken):
 
 def replay(ctx, rec):
     inp = rec['input']
+    if inp.get('op') == 'end_to_end':
+        spec = {k: v for k, v in inp.items() if k != 'op'}
+        r = ctx.run_impl('harness.c14', 'impl_end_to_end', {'specs': [spec]})[0]
+        return any(not x['equal'] for x in r), {'input': inp, 'impl_result': r}
     if inp.get('op') == 'compress':
         spec = {k: inp[k] for k in ('data', 'itemsz', 'blocksz', 'codec')}
         r = ctx.run_impl('harness.c14', 'impl_compress', {'specs': [spec]})[0]
